@@ -1,5 +1,6 @@
 pub mod ast;
 pub mod generate;
 pub mod interp;
+pub mod mutate;
 pub mod print;
 pub mod shrink;
